@@ -1,6 +1,7 @@
 package main
 
 import (
+	"bytes"
 	"encoding/json"
 	"fmt"
 	"os"
@@ -141,6 +142,9 @@ func (s *stressClient) connect() {
 		if r.Chance(30) {
 			p.Props = append(p.Props, rc.Prop{ID: rc.PTopicAliasMax, Num: uint32(r.Range(1, 3))})
 		}
+		if r.Chance(25) {
+			p.Props = append(p.Props, rc.Prop{ID: rc.PMaxPacketSize, Num: uint32(vk.Pick(r, []int{48, 90, 200}))})
+		}
 	}
 	s.c.Send(p, rc.FormAuto)
 	s.count("connect")
@@ -192,6 +196,9 @@ func (s *stressClient) step() {
 		p := &rc.Packet{Type: rc.PUBLISH, Topic: vk.Pick(r, stressTopics), QoS: q, Retain: r.Chance(15), Payload: []byte(s.id + "-" + strconv.Itoa(int(s.pid)))}
 		if r.Chance(10) {
 			p.Payload = nil
+		} else if r.Chance(12) {
+			// now and then a message that does not fit the Maximum Packet Size some subscribers announced
+			p.Payload = append(p.Payload, bytes.Repeat([]byte{'x'}, r.Range(60, 400))...)
 		}
 		if q > 0 {
 			s.pid++
